@@ -33,6 +33,21 @@ def props_of(func, clause, kind, explicit=None):
         if "_read_asn1_header" in f or "_read_asn1_boolean" in f or "peek_header" in f or "read_boolean" in f:
             return {"C07", "C04"}
         return {"C07"}
+    if f.startswith("_messages") or f.startswith("specs.sess"):
+        if kind in ("raises", "on-raise"):
+            return {"C06", "C02"}
+        return {"C02", "C06", "C05"}
+    if "_session" in f and "receive" in f:
+        out = set()
+        if "msgs(" in c or "residue(" in c:
+            out |= {"C02", "C06"}
+        if kind in ("raises-unexpected", "raises", "on-raise") or "exc." in c:
+            out |= {"C05"}
+        if "self.state" in c or "SessionState" in c:
+            out |= {"C08", "C05"}
+        if "_message_counter" in c or "ids_below" in c or "subset(" in c:
+            out |= {"C09"}
+        return out or {"C05"}
     if "_session" in f or f == "history":
         is_client = "LDAPClient" in f
         is_recv = "receive" in f or "_process_incoming_message" in f
